@@ -1,5 +1,7 @@
 """C10 - rejections are always SyntaxError at the first offending token."""
 
+import os
+
 import parglare
 
 from pgverif import cfg, findings, glrobs, pgx
@@ -44,6 +46,8 @@ def required(tier):
         "rendered": 10000,
         "lr.disambiguation_errors_located": 200,
         "config.newline_is_not_layout": 50,
+        "with_start_position": 1000,
+        "via_parse_file": 300,
     }
 
 
@@ -141,18 +145,52 @@ def one_grammar(ctx, gmon, g, alphabet, maxlen):
             ctx.count("input.trailing_layout")
         for name, kind, parser in parsers:
             check(ctx, gmon, g, dict(case0, input=inp, config=name), name, kind, parser, inp, e)
+            r = ctx.rng.random()
+            if r < 0.12:
+                # parse(text, position=k): everything reported stays absolute in the whole text
+                pre = ctx.rng.choice(PREFIXES)
+                check(ctx, gmon, g, dict(case0, input=inp, config=name, prefix=pre), name, kind, parser, inp, e, prefix=pre)
+            elif r < 0.16 and "\r" not in inp:
+                # (parse_file reads in text mode: carriage returns would be translated)
+                check(ctx, gmon, g, dict(case0, input=inp, config=name, via_file=True), name, kind, parser, inp, e, via_file=True)
 
 
-def check(ctx, gmon, g, case, name, kind, parser, inp, e):
-    key = (case["grammar"], name, str(inp))
-    want_pos = e.farthest
+PREFIXES = ["#", "## ", "#\n", "x\n\n y", "\n", "  "]
+_TMP = []
+
+
+def tmp_file(text):
+    if not _TMP:
+        import atexit
+        import shutil
+        import tempfile
+
+        d = tempfile.mkdtemp(prefix="pgv-c10-")
+        atexit.register(shutil.rmtree, d, True)
+        _TMP.append(d)
+    path = os.path.join(_TMP[0], "input.txt")
+    with open(path, "w", encoding="utf-8", newline="") as f:
+        f.write(text)
+    return path
+
+
+def check(ctx, gmon, g, case, name, kind, parser, inp, e, prefix="", via_file=False):
+    key = (case["grammar"], name, str(inp), prefix, via_file)
+    want_pos = e.farthest + len(prefix)
+    kw = {"position": len(prefix)} if prefix else {}
+    inp = prefix + inp
+    fn = parser.parse
+    arg = inp
+    if via_file:
+        arg = tmp_file(inp)
+        fn = parser.parse_file
     try:
         with pgx.watchdog(30):
             if kind == "glr":
-                o = glrobs.parse_glr(parser, inp)
+                o = glrobs.parse_glr(parser, inp, **kw) if not via_file else glrobs.parse_glr(PF(parser), arg)
                 okind, err = o.kind, (o.err if o.kind == "syntax" else o.exc)
             else:
-                okind, err = pgx.outcome(parser.parse, inp)
+                okind, err = pgx.outcome(fn, arg, **kw)
                 if okind == "ret":
                     okind = "forest"
     except pgx.CaseTimeout:
@@ -194,10 +232,20 @@ def check(ctx, gmon, g, case, name, kind, parser, inp, e):
         return
     loc = err.location
     pos = loc.start_position
+    if prefix:
+        ctx.count("with_start_position")
+    if via_file:
+        ctx.count("via_parse_file")
+        if loc.file_name != arg:
+            ctx.violation("wrong-file-name", case, "parse_file(%r): location.file_name is %r" % (arg, loc.file_name))
+            return
+        if arg not in msg:
+            ctx.violation("wrong-file-name", case, "parse_file(%r): the file name is not in the rendered error %r" % (arg, msg[:120]))
+            return
     if pos != want_pos:
         known = None
         if kind == "glr":
-            known = reattribute(gmon, g, parser, inp)
+            known = reattribute(gmon, g, parser, inp, **kw)
         ctx.violation("wrong-error-position", case, "%s reports position %s, the first offending token starts at %s" % (name, pos, want_pos), known=known)
         return
     ctx.count("glr.errors_judged" if kind == "glr" else "lr.det_errors_judged")
@@ -214,20 +262,30 @@ def check(ctx, gmon, g, case, name, kind, parser, inp, e):
         return
     if kind == "glr":
         got = set(s.name for s in err.symbols_expected) - {"STOP"}
-        want = e.expected_at(want_pos) - {"STOP"}
+        want = e.expected_at(e.farthest) - {"STOP"}
         ctx.count("glr.expected_compared")
         if got != want:
-            known = reattribute(gmon, g, parser, inp)
+            known = reattribute(gmon, g, parser, inp, **kw)
             ctx.violation("wrong-symbols-expected", case, "symbols_expected %s, terminals that can come next %s" % (sorted(got), sorted(want)), known=known)
 
 
-def reattribute(gmon, g, parser, inp):
+class PF:
+    """parse_file through the parse_glr observer."""
+
+    def __init__(self, parser):
+        self.parser = parser
+
+    def parse(self, path):
+        return self.parser.parse_file(path)
+
+
+def reattribute(gmon, g, parser, inp, **kw):
     """A wrong position/expected set of the GLR parser is the recorded lost
     derivation mechanism only if the closure monitor says so for this parse."""
     gmon.do_closure = True
     try:
         with pgx.watchdog(30):
-            glrobs.parse_glr(parser, inp)
+            glrobs.parse_glr(parser, inp, **kw)
         return findings.lost_derivations_known(g, gmon)
     except (pgx.CaseTimeout, pgx.BudgetExceeded):
         return None
@@ -354,7 +412,7 @@ def replay(case, ctx):
         bo = case.get("blank_only", False)
         for name, kind, parser in build_parsers(case["grammar"], " \t" if bo else None):
             if name == case["config"]:
-                check(ctx, gmon, g, case, name, kind, parser, case["input"], cfg.Earley(g, case["input"], skip=skip_blank if bo else cfg.skip_ws))
+                check(ctx, gmon, g, case, name, kind, parser, case["input"], cfg.Earley(g, case["input"], skip=skip_blank if bo else cfg.skip_ws), prefix=case.get("prefix", ""), via_file=case.get("via_file", False))
     finally:
         gmon.uninstall()
         lmon.uninstall()
